@@ -376,7 +376,7 @@ def routing_shard():
     hs = all_histories(3, 2)
     for sign in c08.SIGNS:
         for kind in ("stdp", "mstdpet"):
-            for which in ("upper", "lower", "lower-then-upper"):
+            for which in ("upper", "upper-at-0", "lower", "lower-then-upper"):
                 for h in hs:
                     tally.add("evaluations")
                     layer = spec.build(dt, 1)
@@ -385,6 +385,8 @@ def routing_shard():
                     acc = layer.connection.updater.weight
                     if which == "upper":
                         acc.upperbound(zero_probe, 1.0)
+                    elif which == "upper-at-0":  # an upper limit of exactly 0.0 (inhibitory range) is a limit like any other
+                        acc.upperbound(zero_probe, 0.0)
                     elif which == "lower":
                         acc.lowerbound(zero_probe, 0.0)
                     else:  # a pass-through upper half installed after the lower probe must leave the lower probe in place
@@ -402,7 +404,7 @@ def routing_shard():
                     neg = torch.zeros_like(w0) if neg is None else neg.clone()
                     layer.connection.update()
                     dw = layer.connection.weight.detach() - w0
-                    exp = -neg if which == "upper" else pos
+                    exp = -neg if which in ("upper", "upper-at-0") else pos
                     case = {"trainer": kind, "sign": sign, "probe": which, "history": h}
                     tally.mark("nontrivial", (kind, sign, which, tuple(map(tuple, h))))
                     if not torch.allclose(dw, exp, atol=1e-6):
